@@ -21,7 +21,7 @@ ID = "C06"
 DESIGN_REF = "DESIGN.md §4 C06, §2.1 E3"
 EXPLORER = "E3 deviation-bounded environment-answer DFS (scripted clock) x E1 product space, per-step snapshots"
 RULE = (
-    "cases = (data, initial index, n_to_select form, switching point) with switching point either explicit "
+    "cases = (data, initial index, n_to_select form, switching point; non-lattice data also on a USED selector fitted before on other data with the same number of samples) with switching point either explicit "
     "in {1/128, 0.3, 0.5, 1.0} (optionally reached through a two-leg warm start) or calibrated under EVERY "
     "scripted-clock outcome (2^7 faster/slower answer sequences + single 'equal' deviations; thorough: all 3^7); "
     "non-trivial = at least one step whose active set was a strict subset of the candidates (pruning happened) "
@@ -52,6 +52,10 @@ def _datas(tier, seed):
     # two far clusters on a line + duplicates
     out.append(("line", [[0.0, 0.0], [0.25, 0.0], [0.5, 0.0], [10.0, 0.0], [10.25, 0.0], [10.5, 0.0], [20.0, 0.0], [20.5, 0.0]]))
     out.append(("dup", [[0.0, 0.0], [0.0, 0.0], [1.0, 0.0], [1.0, 0.0], [5.0, 5.0], [5.0, 5.0], [5.0, 6.0]]))
+    # the same geometry at very small / large scale (an absolute tolerance in the code shows here)
+    for sc, tag in ((1e-7, "tiny"), (1e5, "huge")):
+        out.append(("clustered2d-%s" % tag, (np.array(fam.clustered(2, 3, seed * 100)) * sc).tolist()))
+        out.append(("line-%s" % tag, (np.array([[0.0, 0.0], [0.25, 0.0], [0.5, 0.0], [10.0, 0.0], [10.25, 0.0], [10.5, 0.0], [20.0, 0.0], [20.5, 0.0]]) * sc).tolist()))
     for shp in [(5, 2), (7, 3), (9, 2), (12, 3)]:
         for X in fam.generic_list(shp[0], shp[1], seed, 3 if tier == "quick" else 20):
             out.append(("G%dx%d" % shp, X))
@@ -99,6 +103,8 @@ def cases(group):
             for init in _inits(N):
                 for n in _nforms(N):
                     yield dict(mode="explicit", X=X, init=init, legs=[n], ff=ff)
+                    if not group["label"].startswith("L") and n in (N, None):
+                        yield dict(mode="explicit", X=X, init=init, legs=[n], ff=ff, prefit=True)
                 if init == "random":
                     continue
                 top = min(N, 6)
@@ -180,10 +186,15 @@ def _snapshot(s):
     return (np.array(s.hausdorff_, float, copy=True), None if cell is None else np.array(cell, copy=True))
 
 
-def _run_voronoi(X, init, legs, ff, n_trial=4):
+def _run_voronoi(X, init, legs, ff, n_trial=4, prefit=False):
     """Fit the real VoronoiFPS (cold + optional warm legs); returns (selector, recorder, active sizes, exc)."""
     params = dict(initialize=init, n_to_select=legs[0], full_fraction=ff, n_trial_calculation=n_trial)
     s = sel.make("VoronoiFPS", "sample", **params)
+    if prefit:  # a USED selector: fitted before on other data with the same number of samples
+        Xo = X[::-1, ::-1].copy() * 0.75 + 0.125 * np.abs(X).max()
+        _, exc0 = sel.fit_quiet(s, Xo, None)
+        if exc0 is not None:
+            return s, sel.StepRecorder(s, _snapshot), [], exc0
     rec = sel.StepRecorder(s, _snapshot)
     active = []
     ga = getattr(s, "_get_active", None)
@@ -271,7 +282,7 @@ def check(case):
     X = np.array(case["X"], float)
     N = len(X)
     D, scale, _ = sel.distance_matrix("VoronoiFPS", "sample", X)
-    tol = 1e-9 * scale + 1e-12
+    tol = 1e-9 * scale + 1e-300
     init, legs = case["init"], case["legs"]
     n_final = sel.resolve_n(legs[-1], N)
     if n_final is None or n_final < 1:
@@ -281,7 +292,7 @@ def check(case):
     pruned_steps = 0
 
     if case["mode"] == "explicit":
-        s, rec, active, exc = _run_voronoi(X, init, legs, case["ff"])
+        s, rec, active, exc = _run_voronoi(X, init, legs, case["ff"], prefit=bool(case.get("prefit")))
         if exc is not None:  # every configuration of this alphabet is admissible
             return r.fail("crash:%s" % type(exc).__name__, "%r" % exc)
         idx, tie = _judge_run(r, X, D, tol, s, rec, active, init, n_final, "ff=%g legs=%s" % (case["ff"], legs))
